@@ -611,6 +611,23 @@ def check_walker(ctx):
                         bad_order = 'sort with key=/reverse='
                     else:
                         sorted_ok = True
+            # for x in sorted(ACC) where ACC collected this very element
+            # (a filtering generator / comprehension the engine has run)
+            for ev in p.events:
+                if ev.kind == 'iter' and isinstance(
+                        ev.node, ast.Call) and isinstance(
+                            ev.node.func, ast.Name) and ev.node.func.id in (
+                                'sorted', 'reversed') and ev.node.args and \
+                        isinstance(ev.node.args[0], ast.Name) and any(
+                            not isinstance(it, tuple) and U(it) == U(e0)
+                            for it in cont.get(ev.node.args[0].id, [])):
+                    if ev.node.func.id == 'reversed':
+                        bad_order = 'reversed'
+                    elif any(k.arg in ('key', 'reverse')
+                             for k in ev.node.keywords):
+                        bad_order = 'sorted with key=/reverse='
+                    else:
+                        sorted_ok = True
             if isinstance(inner, (ast.GeneratorExp, ast.ListComp)) and len(
                     inner.generators) == 1 and U(inner.elt) == U(
                         inner.generators[0].target):
